@@ -79,6 +79,9 @@ func main() {
 		})
 		fmt.Println("terminal:", sch.Term, sch.PanicVal)
 		return
+	case "scanworker":
+		scanWorker(os.Args[2])
+		return
 	case "worker":
 		id, tier := os.Args[2], os.Args[3]
 		if sp := seqSpecFor(id, tier); sp != nil {
@@ -95,6 +98,12 @@ func main() {
 			*tier = t
 		}
 		redisemu.VInit()
+		if id == "C17" {
+			rep := newReport(id, *tier, "model_checking")
+			rep.Assume = []string{"element names are chosen with the dictionary's own hash function so that single insertions / deletions double or halve the table mid-iteration", "at most m mutations per iteration (m in the evidence), tables of 16..128 buckets"}
+			runScanCheck(*tier, rep)
+			os.Exit(rep.finish())
+		}
 		if sps := seqSpecsFor(id, *tier); sps != nil {
 			rep := newReport(id, *tier, "model_checking")
 			rep.Assume = []string{
